@@ -271,8 +271,10 @@ theorem honest_run_succeeds {τ : Type} (H : Hash) (Z : Zip τ) (k : Nat) (hk : 
 The composed system (`WV/Proofs/C04_Net.lean`): the Xfer receiver on C06's receiving `Conn`, the
 ack read on C06's sending-side `Conn`, an arbitrary adversary in between.  Quantified over every
 byte sequence and chunking fed to the receiving connection, every moment of attaching the consumer
-and of reporting the loss (`List NetOp`), and every C06 operation sequence at the sender's
-connection (`List C06.Op`).  Assumptions: C06's `IdealFor` for the direction concerned (only the
+(C06's script `consume (some xfersize) onDone`, i.e. `writeToFile`, with *any* callback script
+`onDone`) and of reporting the loss (`List NetOp`), and every C06 operation sequence at the sender's
+connection (`List C06.Op`: bytes, top-level calls of arbitrary re-entrant `Act` scripts — the
+sender's own is a `read` —, loss).  Assumptions: C06's `IdealFor` for the direction concerned (only the
 peer's sealings open under the receive key), the code's own 2^192 record-count limit, collision
 freedom of the hash where the statement needs it, and the json codec of the ack as an interface. -/
 
@@ -412,9 +414,9 @@ theorem net_first_bad_frame_no_success {τ : Type} (E : C06.Env) (H : Hash) (Z :
     (j : Nat) (hj : j ≤ rs.length) (e tail : Bytes) (he : e.length < 256 ^ 4)
     (hbad : ∀ h : j < rs.length, e ≠ C06.blob E (C06.receiverRecordKey E false) j rs[j])
     (hfew : (rs.take j).flatten.length < xfersize)
-    (x0 : Bytes) (cs : List Bytes)
+    (onDone : List C06.Act) (x0 : Bytes) (cs : List Bytes)
     (hwire : x0 ++ cs.flatten = C06.wireOf E (C06.receiverRecordKey E false) 0 (rs.take j) ++ (C06.frame e ++ tail)) :
-    let ops := NetOp.attach :: (x0 :: cs).map NetOp.data
+    let ops := NetOp.attach onDone :: (x0 :: cs).map NetOp.data
     (connRun E xfersize (C06.Conn.init false) ops).state = .hungUp ∧
     (connRun E xfersize (C06.Conn.init false) ops).app.surfaced = rs.take j ∧
     (netRx E H Z xfersize dirMode stale [] ops).result = .pending ∧
@@ -423,12 +425,12 @@ theorem net_first_bad_frame_no_success {τ : Type} (E : C06.Env) (H : Hash) (Z :
     (netRx E H Z xfersize dirMode stale [] (ops ++ [.lost])).result = .failed .connectionClosed := by
   intro ops
   have hrun : connRun E xfersize (C06.Conn.init false) ops =
-      C06.feed E { C06.Conn.init false with app := (C06.connectConsumer C06.App.init (some xfersize)).1 } (x0 :: cs) := by
-    show connRun E xfersize (C06.Conn.init false) (.attach :: (x0 :: cs).map NetOp.data) = _
+      C06.feed E { C06.Conn.init false with app := C06.appCall C06.App.init [.consume (some xfersize) onDone] } (x0 :: cs) := by
+    show connRun E xfersize (C06.Conn.init false) (.attach onDone :: (x0 :: cs).map NetOp.data) = _
     rw [connRun_attach_feed, attach_fresh]
-  obtain ⟨f1, f2⟩ := attach_fresh_facts xfersize
+  obtain ⟨f1, f2⟩ := attach_fresh_facts xfersize onDone
   obtain ⟨d1, _, _, d4⟩ := Props.C06.first_bad_frame_drops E false rs hcount hsz hid j hj e tail he hbad
-    (C06.connectConsumer C06.App.init (some xfersize)).1 x0 cs hwire
+    (C06.appCall C06.App.init [.consume (some xfersize) onDone]) x0 cs hwire
   have hsurf : (connRun E xfersize (C06.Conn.init false) ops).app.surfaced = rs.take j := by
     rw [hrun, d4, C06.emit_lose_surfaced, (C06.foldl_recordReceived_spec (rs.take j) _ f2).1, f1]
     simp
@@ -437,7 +439,7 @@ theorem net_first_bad_frame_no_success {τ : Type} (E : C06.Env) (H : Hash) (Z :
     rw [this, hsurf]; exact hfew
   have hatt : hasAttach ops = true := rfl
   have hnl : hasLost ops = false := by
-    show hasLost (.attach :: (x0 :: cs).map NetOp.data) = false
+    show hasLost (.attach onDone :: (x0 :: cs).map NetOp.data) = false
     simp only [hasLost]
     exact hasLost_map_data (x0 :: cs)
   have hinv := Proofs.C04.inv_run H Z xfersize dirMode stale (rxTrace E xfersize (C06.Conn.init false []) ops)
@@ -458,31 +460,31 @@ theorem net_honest_run_succeeds {τ : Type} (E : C06.Env) (H : Hash) (Z : Zip τ
     (src : Bytes) (stale : Option Bytes)
     (hcount : (sendFile k src).records.length ≤ 256 ^ 24)
     (hid : C06.IdealFor E.box (C06.senderRecordKey E true) (sendFile k src).records)
-    (cs : List Bytes)
+    (onDone : List C06.Act) (cs : List Bytes)
     (hcs : cs.flatten = (C06.sendMany E (C06.Conn.init true) (sendFile k src).records).1.app.wire) :
-    let s := netRx E H Z src.length false stale [] (NetOp.attach :: cs.map NetOp.data)
+    let s := netRx E H Z src.length false stale [] (NetOp.attach onDone :: cs.map NetOp.data)
     s.result = .success ∧ s.final = some (.file src) ∧ s.tmpExists = false := by
   intro s
   have hsz : C06.SizesOK (sendFile k src).records := by
     intro r hr
     have := sendFile_sizes k src r hr
     omega
-  obtain ⟨f1, f2⟩ := attach_fresh_facts src.length
+  obtain ⟨f1, f2⟩ := attach_fresh_facts src.length onDone
   obtain ⟨_, r2⟩ := Props.C06.roundtrip E true (sendFile k src).records hcount hsz hid
-    (C06.connectConsumer C06.App.init (some src.length)).1 f2 cs hcs
+    (C06.appCall C06.App.init [.consume (some src.length) onDone]) f2 cs hcs
   simp only at r2
-  have hsurf : (connRun E src.length (C06.Conn.init false []) (NetOp.attach :: cs.map NetOp.data)).app.surfaced =
+  have hsurf : (connRun E src.length (C06.Conn.init false []) (NetOp.attach onDone :: cs.map NetOp.data)).app.surfaced =
       (sendFile k src).records := by
     have : (C06.Conn.init false [] : C06.Conn) = C06.Conn.init false := rfl
     rw [this, connRun_attach_feed, attach_fresh]
     have hb : (!true) = false := rfl
     rw [hb] at r2
     rw [r2, f1]; simp
-  have hall : records (rxTrace E src.length (C06.Conn.init false []) (NetOp.attach :: cs.map NetOp.data)) =
+  have hall : records (rxTrace E src.length (C06.Conn.init false []) (NetOp.attach onDone :: cs.map NetOp.data)) =
       (sendFile k src).records := by rw [net_records]; exact hsurf
-  have hconn : Proofs.C04.sawConnect (rxTrace E src.length (C06.Conn.init false []) (NetOp.attach :: cs.map NetOp.data)) = true := by
+  have hconn : Proofs.C04.sawConnect (rxTrace E src.length (C06.Conn.init false []) (NetOp.attach onDone :: cs.map NetOp.data)) = true := by
     rw [trace_sawConnect]; rfl
-  have hnl : Proofs.C04.sawLost (rxTrace E src.length (C06.Conn.init false []) (NetOp.attach :: cs.map NetOp.data)) = false := by
+  have hnl : Proofs.C04.sawLost (rxTrace E src.length (C06.Conn.init false []) (NetOp.attach onDone :: cs.map NetOp.data)) = false := by
     rw [trace_sawLost]
     simp only [hasLost]
     exact hasLost_map_data cs
@@ -508,9 +510,9 @@ def exNetEnv : C06.Env :=
 example :
     let wire := (C06.sendMany exNetEnv (C06.Conn.init true) (sendFile 2 exSrc).records).1.app.wire
     (WV.C04Net.netRx exNetEnv toyHash toyZip exSrc.length false none []
-      (WV.C04Net.NetOp.attach :: [wire].map WV.C04Net.NetOp.data)).result = .success :=
+      (WV.C04Net.NetOp.attach [.close] :: [wire].map WV.C04Net.NetOp.data)).result = .success :=
   (net_honest_run_succeeds exNetEnv toyHash toyZip 2 (by decide) (by decide) exSrc none (by decide)
-    (C06.idealBox_ideal _ _) [_] (by simp)).1
+    (C06.idealBox_ideal _ _) [.close] [_] (by simp)).1
 
 /-- a 5-byte file in 2-byte chunks, consumer attached after the first record -/
 example :
